@@ -550,7 +550,7 @@ fn spec() -> BoxedStrategy<OpSpec> {
     .boxed()
 }
 
-fn strategy() -> BoxedStrategy<Case> {
+pub fn strategy() -> BoxedStrategy<Case> {
     (spec(), value(), any::<u64>()).prop_map(|(spec, input, seed)| Case { spec, input, seed }).boxed()
 }
 
@@ -730,7 +730,7 @@ pub fn wrapper_oracle(c: &WrapCase, probe: &mut Probe) -> Result<(), Fail> {
     Ok(())
 }
 
-fn wrap_strategy() -> BoxedStrategy<WrapCase> {
+pub fn wrap_strategy() -> BoxedStrategy<WrapCase> {
     (
         prop_oneof![Just(Spec::Best), Just(Spec::Random), (1usize..4).prop_map(Spec::Tournament), Just(Spec::Lexicase(2)), Just(Spec::Worst)],
         0usize..6,
